@@ -12,7 +12,7 @@ def main():
     for key, c in cs.functions.items():
         if only and not any(o in key for o in only):
             continue
-        if c.get("inline"):
+        if c.get("inline") or c.get("assumed"):
             continue
         for i, kinds in enumerate(verify.param_cases(c)):
             n0 = len(eng.obligations)
